@@ -84,6 +84,9 @@ def run(ctx):
                      'state', 2)
     ctx.rule('R02f', 'an absent optional argument consumes nothing: the reader is moved back to the '
                      'first token including its leading whitespace', 2)
+    ctx.rule('R02h', 'the escape character followed by begin/end starts an environment token only when '
+                     'the next character is not a macro-name letter (\\endgroup, \\beginx are macros), for '
+                     'both words alike', 1)
     ctx.rule('R02g', 'default table: the line-break macro takes its optional argument only without '
                      'leading whitespace; \\begin/\\end names; paragraph specials', 2)
 
@@ -198,6 +201,8 @@ def run(ctx):
 
     # ------------------------------------------------------------ R02e
     _rest(ctx, repo)
+    # ------------------------------------------------------------ R02h
+    _begin_end_word_boundary(ctx, repo)
     ctx.assume('equality of the produced tree with the grammar derivation of the document is not '
                'decided; only dispatch, slot and delimiter discipline are')
     return 'other', (
@@ -207,6 +212,140 @@ def run(ctx):
         'are restored for children, absent optional arguments consume nothing.  These are necessary '
         'for well-formed documents to be parsed into their written structure; equality with the '
         'derivation tree is not decided.')
+
+
+def _regex_paths(items):
+    """expand a parsed regex (re._parser) into its alternative linear sequences"""
+    import re._parser as sp
+    paths = [[]]
+    for op, av in items:
+        opn = str(op)
+        if opn == 'BRANCH':
+            alts = []
+            for br in av[1]:
+                alts.extend(_regex_paths(list(br)))
+            paths = [p + a for p in paths for a in alts]
+        elif opn == 'SUBPATTERN':
+            sub = _regex_paths(list(av[3]))
+            paths = [p + a for p in paths for a in sub]
+        else:
+            paths = [p + [(opn, av)] for p in paths]
+    return paths
+
+
+def _regex_word_boundary_verdict(pattern):
+    """for a regex used to recognise begin/end after the escape character: (ok, reason).  ok is
+    True when every alternative spells begin or end and is followed by a negative look-ahead for
+    a letter (or end of input); False when some alternative lacks it; None if not understood."""
+    import re._parser as sp
+    try:
+        parsed = sp.parse(pattern)
+    except Exception as e:                      # malformed pattern: not ours to judge
+        return None, 'pattern not parsed: %s' % e
+    seen = set()
+    for path in _regex_paths(list(parsed)):
+        word = ''
+        i = 0
+        while i < len(path) and path[i][0] == 'LITERAL':
+            word += chr(path[i][1])
+            i += 1
+        if word not in ('begin', 'end'):
+            return None, 'alternative %r is not the word begin or end' % word
+        seen.add(word)
+        rest = path[i:]
+        guarded = False
+        if rest and rest[0][0] == 'ASSERT_NOT' and rest[0][1][0] == 1:
+            inner = list(rest[0][1][1])
+            if len(inner) == 1 and str(inner[0][0]) == 'IN':
+                rng = [(str(o), a) for o, a in inner[0][1]]
+                low = any(o == 'RANGE' and a[0] <= ord('a') and a[1] >= ord('z') for o, a in rng)
+                up = any(o == 'RANGE' and a[0] <= ord('A') and a[1] >= ord('Z') for o, a in rng)
+                guarded = low and up
+        if not guarded:
+            return False, ('the alternative %r is not followed by a negative look-ahead for a '
+                           'letter: \\%sgroup-like macro names are read as environment tokens' % (word, word))
+    if seen != {'begin', 'end'}:
+        return None, 'alternatives cover %s' % sorted(seen)
+    return True, 'begin|end each followed by (?![A-Za-z])'
+
+
+def _begin_end_word_boundary(ctx, repo):
+    from .. import symex, affine
+    tm = repo.mod(TR)
+    ip = tm.methods('LatexTokenReader').get('impl_peek_token')
+    if ip is None:
+        raise AnalysisError('anchor vanished: impl_peek_token')
+    try:
+        cases = symex.sink_cases(ip, lambda c: call_name(c) == 'impl_read_environment')
+    except symex.TooManyPaths as e:
+        ctx.unknown('R02h', tm, ip, str(e), construct='environment token: word boundary')
+        return
+    if not cases:
+        raise AnalysisError('anchor vanished: impl_read_environment is not called from impl_peek_token')
+    for cs in cases:
+        be = kwarg(cs.sub, 'beginend')
+        if be is None and len(cs.sub.args) > 3:
+            be = cs.sub.args[3]
+        posx = kwarg(cs.sub, 'pos') or (cs.sub.args[1] if len(cs.sub.args) > 1 else None)
+        word = be.value if isinstance(be, ast.Constant) else None
+        cons = 'impl_peek_token: environment token for %s' % (word or short(be))
+        atoms = []
+        for t, pol in cs.conds:
+            atoms.extend(symex._atoms(t, pol))
+        if word in ('begin', 'end'):
+            has_word = any(ap and isinstance(a, ast.Call) and call_name(a) == 'startswith' and a.args
+                           and isinstance(a.args[0], ast.Constant) and a.args[0].value == word
+                           for a, ap in atoms)
+            boundary = False
+            for a, ap in atoms:
+                if not ap:
+                    continue
+                alts = a.values if isinstance(a, ast.BoolOp) and isinstance(a.op, ast.Or) else [a]
+                for x in alts:
+                    if isinstance(x, ast.Compare) and len(x.ops) == 1 and isinstance(x.ops[0], ast.NotIn) \
+                            and unparse(x.comparators[0]).endswith('.macro_alpha_chars') \
+                            and isinstance(x.left, ast.Subscript):
+                        try:
+                            d = affine.diff(x.left.slice, posx, {})
+                        except affine.NotAffine:
+                            continue
+                        if d == (1 + len(word), {}):
+                            boundary = True
+            if has_word and boundary:
+                ctx.holds('R02h', tm, cs.node, 'after %r the next character is tested against '
+                                               'macro_alpha_chars' % word, construct=cons)
+                continue
+            if has_word and not boundary:
+                ctx.refuted('R02h', tm, cs.node, 'an environment token is produced for %r without '
+                            'testing that the character after the word is not a macro-name letter: '
+                            'macros such as \\%sgroup are read as environment tokens' % (word, word),
+                            construct=cons)
+                continue
+        # regex form: beginend = m.group() of a compiled pattern
+        rx = None
+        for sym, d in cs.env.get('#def', {}).items():
+            if isinstance(d, ast.Call) and call_name(d) in ('match', 'search', 'fullmatch') and \
+                    call_recv(d) is not None:
+                rx = unparse(call_recv(d)).split('.')[-1]
+        pat = None
+        if rx:
+            for st in ast.walk(tm.tree):
+                if isinstance(st, ast.Assign) and any(unparse(t).split('.')[-1] == rx for t in st.targets) \
+                        and isinstance(st.value, ast.Call) and call_name(st.value) == 'compile' \
+                        and st.value.args and isinstance(st.value.args[0], ast.Constant):
+                    pat = st.value.args[0].value
+        if pat is None:
+            ctx.unknown('R02h', tm, cs.node, 'begin/end detection not in a recognised form',
+                        construct=cons)
+            continue
+        ok, why = _regex_word_boundary_verdict(pat)
+        if ok is None:
+            ctx.unknown('R02h', tm, cs.node, 'pattern %r: %s' % (pat, why), construct=cons)
+        elif ok:
+            ctx.holds('R02h', tm, cs.node, 'pattern %r: %s' % (pat, why), construct=cons)
+        else:
+            ctx.refuted('R02h', tm, cs.node, 'begin/end are recognised with the pattern %r: %s'
+                        % (pat, why), construct=cons)
 
 
 def closing_predicates(ctx, repo, rule):
